@@ -4,6 +4,7 @@ Oracle (implementation only): no response carries a secret marker planted outsid
 unique marker); every target that climbs above the root is answered with an error status."""
 from vlib import common as C, serve as S, reqgen as G, strict_http as H, servecheck as K
 
+DRIVERS = ['Serve']   # model driver files this check runs: scopes translator failures to the tables they (and the proofs) import
 TRUSTED = ['Linux path resolution on the generated trees (real files on disk through the harness)']
 ASSUMPTIONS = ['file locations are identified by unique content markers rather than by instrumenting every open()']
 WITH_MODEL = True
